@@ -11,7 +11,7 @@
      copy_pre  = both buffers are large enough for the addressed ranges, allocations < 2^61 bytes
      buf_pre   = size <= allocation, allocation < 2^61 bytes, offset is a size_t, bytes < 256. *)
 From Verif Require Import Bits CPrims CPrimsThm F16 F16Thm F16ArithThm CppPrims CppPrimsThm CppPrimsMoreThm PyPrims PyPrimsThm PyPrimsMoreThm PyPrimsStdThm PyPrimsBitsThm PyPrimsForkThm PrimsExt PrimsExtThm
-  CPrimsW CPrimsWThm F16FlocqDefs F16Flocq PyComposeThm CppComposeThm Gen_Pin_c14py Gen_Pin_c14c PyPrimsChk PyPrimsChkThm.
+  CPrimsW CPrimsWThm F16FlocqDefs F16Flocq PyComposeThm CppComposeThm Gen_Pin_c14py Gen_Pin_c14c PyPrimsTotalThm CppPrimsFix CppPrimsFixThm.
 Open Scope N_scope.
 
 (* ---------------------------------------------------------------------------------------------
@@ -320,6 +320,53 @@ Theorem C14_cpp_set_uxx_every_offset :
        cpp_set_ixx s value len = set_ixx false (sp_data s) (sp_size s) (sp_off s) value len).
 Proof. exact cpp_set_uxx_every_offset_b. Qed.
 Print Assumptions C14_cpp_set_uxx_every_offset.
+
+(* padAndMoveToAlignment(n) and subspan(bits_at, size_bits) take size_t arguments; C14_cpp_pad_and_subspans above covers n <= 255 and
+   offsets/sizes whose sums do not wrap.  Outside, the text currently in /repo is WRONG (known findings F-BITSPAN-PAD-TRUNC,
+   F-BITSPAN-SUBSPAN-WRAP, reproduced on the rendered header on every run): the padding amount is cast to uint8_t, so
+   padAndMoveToAlignment(512) at cursor 8 reports success with the cursor at 256; `offset_bits_ + bits_at` and
+   `new_offset_bits + size_bits` wrap, so subspan(2^64 - 7, 8) at cursor 8 and subspan(0, 2^64 - 6) at cursor 7 report success. *)
+Theorem C14_cpp_pad_truncation_refuted :
+  exists s n, span_ok s /\ bytes_ok (sp_data s) /\ 1 <= n < two64 /\
+    exists r o, padAndMoveToAlignment s n = Some (inl (r, o)) /\ o mod n <> 0.
+Proof. exact pad_current_truncates_refuted. Qed.
+Print Assumptions C14_cpp_pad_truncation_refuted.
+
+Theorem C14_cpp_subspan_wrap_refuted :
+  exists s, span_ok s /\
+    (exists r, subspan2 s (two64 - 7) 8 = inl r) /\
+    (exists r, subspan2 (mkspan (sp_data s) (sp_size s) 7) 0 (two64 - 6) = inl r).
+Proof. exact subspan2_current_wraps_refuted. Qed.
+Print Assumptions C14_cpp_subspan_wrap_refuted.
+
+(* With design_notes/C14_bitspan_wrap_fix.patch (Prims/CppPrimsFix.v) both members meet their contract for EVERY value of their
+   size_t arguments: the cursor ends on a multiple of n (or the buffer is too small), exactly the padding bits are zeroed ... *)
+Theorem C14_cpp_pad_every_alignment :
+  (forall s n, span_okb s = true -> (1 <=? n) && (n <? two64) = true ->
+     let pad := (n - sp_off s mod n) mod n in
+     if sp_bits s <? pad
+     then padAndMoveToAlignment_fix s n = Some (inr TooSmall)
+     else exists r, padAndMoveToAlignment_fix s n = Some (inl (r, sp_off s + pad)) /\ (sp_off s + pad) mod n = 0 /\
+            List.length r = List.length (sp_data s) /\
+            forall p, bit r p = if (sp_off s <=? p) && (p <? sp_off s + pad) then false else bit (sp_data s) p) /\
+  (forall s n, n <= 255 -> padAndMoveToAlignment_fix s n = padAndMoveToAlignment s n).
+Proof. split; [exact pad_and_move_fix_spec_b|exact pad_fix_is_current_on_uint8]. Qed.
+Print Assumptions C14_cpp_pad_every_alignment.
+
+(* ... and subspan(bits_at, size_bits) succeeds exactly when, in natural-number arithmetic, the byte position (offset + bits_at)/8 is
+   inside the buffer and the remaining bytes hold (offset + bits_at) mod 8 + size_bits bits; the result then addresses those bytes *)
+Theorem C14_cpp_subspan_every_offset :
+  (forall s bits_at size_bits, span_okb s = true -> (bits_at <? two64) && (size_bits <? two64) = true ->
+     let k := (sp_off s + bits_at) / 8 in
+     let o := (sp_off s + bits_at) mod 8 in
+     if (sp_size s <? k) || ((sp_size s - k) * 8 <? o + size_bits)
+     then subspan2_fix s bits_at size_bits = inr TooSmall
+     else subspan2_fix s bits_at size_bits = inl (mkspan (skipn (N.to_nat k) (sp_data s)) ((o + size_bits) / 8) o) /\
+          k + (o + size_bits) / 8 <= sp_size s) /\
+  (forall s bits_at size_bits, span_ok s -> sp_off s + bits_at < two64 -> size_bits + 8 < two64 ->
+     subspan2_fix s bits_at size_bits = subspan2 s bits_at size_bits).
+Proof. split; [exact subspan2_fix_spec_b|exact subspan2_fix_is_current_without_wrap]. Qed.
+Print Assumptions C14_cpp_subspan_every_offset.
 
 
 (* Python Serializer: new; invariant preserved; every add method appends exactly the bits of its argument; pad_to_alignment *)
@@ -755,9 +802,17 @@ Print Assumptions C14_cpp_cursor_sequences.
 
 (* The hand model of the Python support module is valid for ONE shape of each method: tools/translators/gen_c14.py writes
    Generated/Gen_Pin_c14py.v from /repo on every run; `pin_c14py_ok` is only defined when the normalised AST (comments,
-   annotations, docstrings dropped, locals alpha-renamed) of all 84 modelled methods of Serializer / Deserializer /
-   ZeroExtendingBuffer (incl. _unsigned_to_bytes, _unsigned_from_bytes, the signed wrappers) equals tools/translators/pins/c14py.txt (current text) or pins/c14py_patched.txt (with design_notes/C14_py_too_small_fix.patch). *)
-Example C14_py_support_shape_pinned : pin_c14py_ok = true.
+   annotations, docstrings dropped, locals alpha-renamed) of all modelled methods of Serializer / Deserializer / ZeroExtendingBuffer
+   (incl. _unsigned_to_bytes, _unsigned_from_bytes, _ensure_writable, the signed wrappers) and the member lists of the seven classes
+   (so that an override added to a subclass is seen) equal tools/translators/pins/c14py.txt = the text of /repo f2fd316.  The
+   pre-fix shape is not accepted any more.  The hash of the dump regenerated from /repo must be the one Prims/PyPrims.v names as the
+   text it models. *)
+Example C14_py_support_shape_pinned : pin_c14py_ok = true /\ pin_c14py_sha = modelled_py_support_sha.
+Proof. split; reflexivity. Qed.
+
+(* regenerated fix fact, f2fd316 (F-PY-SER-SILENT-DROP): Serializer._ensure_writable exists, raises, and is called by every writer
+   that stores more than one element; reverting the fix turns this into `false = true` *)
+Example C14_py_capacity_test_live : pin_c14py_capacity_test_present = true.
 Proof. reflexivity. Qed.
 
 (* The hand models of the C header (CPrims.v, CPrimsW.v, F16.v) and of the C++ header (CppPrims.v, PrimsExt.v) are valid for ONE
@@ -765,9 +820,25 @@ Proof. reflexivity. Qed.
    for every Jinja branch (target_endianness any|little|big x enable_serialization_asserts x omit_float_serialization_support; C++
    also for the standards c++14, c++17, c++17-pmr, cetl++14-17, c++20), drops comments and white space, cuts the token stream into
    function definitions (+ one file-scope remainder, so every token is covered) and defines `pin_c14c_ok` only when each stream
-   equals tools/translators/pins/c14c.txt. *)
-Example C14_c_cpp_support_token_streams_pinned : pin_c14c_ok = true.
+   equals tools/translators/pins/c14c.txt (the text in /repo) or pins/c14c_fixed.txt (with the pending bitspan patch; which of the
+   two is LIVE is fixed by C14_bitspan_fix_state below).  The hashes of the C part and of the C++ part of the regenerated dump must
+   be the ones the model files name as the text they model. *)
+Example C14_c_cpp_support_token_streams_pinned :
+  pin_c14c_ok = true /\ pin_c14c_sha_c = modelled_c_header_sha /\
+  pin_c14c_sha_cpp = (if pin_c14c_bitspan_pad_wide_present && pin_c14c_bitspan_subspan_saturating_present
+                      then modelled_cpp_header_sha_fix else modelled_cpp_header_sha).
+Proof. repeat split; reflexivity. Qed.
+
+(* regenerated fix fact, ba46e0a (F-SETUXX-OFFSET-WRAP): in every rendering nunavutSetUxx / bitspan::setUxx test
+   `len_bits > (capacity_bits - offset)` and never add the offset to the length; reverting the fix turns this into `false = true` *)
+Example C14_setuxx_saturating_check_live : pin_c14c_setuxx_saturating_check_present = true.
 Proof. reflexivity. Qed.
+
+(* STATE of the pending fix design_notes/C14_bitspan_wrap_fix.patch (F-BITSPAN-PAD-TRUNC, F-BITSPAN-SUBSPAN-WRAP): NOT in /repo.
+   When it lands both facts regenerate as `true`, this obligation breaks and is flipped to `= true /\ ... = true` (from then on a
+   revert breaks it again); C14_cpp_pad_truncation_refuted / C14_cpp_subspan_wrap_refuted then move to History with the old text. *)
+Example C14_bitspan_fix_state : pin_c14c_bitspan_pad_wide_present = false /\ pin_c14c_bitspan_subspan_saturating_present = false.
+Proof. split; reflexivity. Qed.
 
 (* The truncation contract of the Python unsigned writers: for EVERY natural value (also values wider than the field) and every
    bit length >= 1, _unsigned_to_bytes gives ceil(bits/8) bytes holding value mod 2^bits with the unused top of the last byte zero;
@@ -789,72 +860,91 @@ Proof. split; [exact unsigned_to_bytes_spec|exact unsigned_writers_truncate]. Qe
 Print Assumptions C14_py_unsigned_truncation.
 
 (* =============================================================================================
-   Round 7: "reports a too-small buffer instead of overrunning it" x Python Serializer. *)
+   "Reports a too-small buffer instead of overrunning it" x Python Serializer (text of /repo f2fd316 and later: Prims/PyPrims.v;
+   the text of before, of which this is false, and its refutation: History/C14_py_history.v). *)
 
-(* The text currently in /repo does NOT: a one-byte aligned slice write with the cursor at the end of the buffer stores nothing,
-   raises nothing and advances the cursor (NumPy broadcasts a length-1 source into the empty slice).  Witness: 3-byte buffer,
-   cursor 24.  Reproduced on the rendered module; known finding F-PY-SER-SILENT-DROP. *)
-Theorem C14_py_one_byte_at_end_refuted :
-  exists s, Inv s /\ bytes_ok (s_buf s) /\ s_off s mod 8 = 0 /\ blen (s_buf s) < s_off s / 8 + 1 /\
-    add_aligned_bytes s [119] = Some (mkser (s_buf s) (s_off s + 8)) /\
-    add_aligned_unsigned s 5 3 = Some (mkser (s_buf s) (s_off s + 3)) /\
-    add_aligned_array_of_bits s [true; false; true] = Some (mkser (s_buf s) (s_off s + 3)).
-Proof. exact py_one_byte_at_end_refuted. Qed.
-Print Assumptions C14_py_one_byte_at_end_refuted.
-
-(* the strongest true statements about the current text: slice sources of two or more bytes that do not fit raise; the
-   single-element stores (add_aligned_u8, add_unaligned_bit) are total: room -> the bits land, no room -> the error, nothing stored *)
-Theorem C14_py_too_small_partial :
-  (forall s x, s_off s mod 8 = 0 -> blen (s_buf s) < s_off s / 8 + blen x -> 2 <= blen x -> add_aligned_bytes s x = None) /\
-  (forall s x, Inv s -> bytes_ok (s_buf s) -> x <= 255 -> s_off s mod 8 = 0 ->
-     if s_off s / 8 <? blen (s_buf s)
-     then exists s', add_aligned_u8 s x = Some s' /\ appended s s' 8 (N.testbit x) else add_aligned_u8 s x = None) /\
-  (forall s x, Inv s -> bytes_ok (s_buf s) ->
-     if s_off s / 8 <? blen (s_buf s)
-     then exists s', add_unaligned_bit s x = Some s' /\ appended s s' 1 (fun _ => x) else add_unaligned_bit s x = None).
-Proof. split; [exact py_current_too_small_partial|split; [exact add_aligned_u8_total|exact add_unaligned_bit_total]]. Qed.
-Print Assumptions C14_py_too_small_partial.
-
-(* With the up-front capacity test of design_notes/C14_py_too_small_fix.patch (Prims/PyPrimsChk.v: guard on the initial state, then
-   the unchanged body) EVERY writer is total, for every cursor, length, value and buffer size: either there is room and exactly the
-   value's bits are appended, or the test fails and the error is raised before anything is stored.  Inside the capacity the patched
-   and the current text are the same function. *)
+(* EVERY writer is total, for every cursor, length, value and buffer size: either there is room and exactly the value's bits are
+   appended, or the error is raised (ValueError of Serializer._ensure_writable / IndexError of a single-element store) before
+   anything is stored.  Part 1: the writers that store by themselves. *)
 Theorem C14_py_too_small_reported :
   (forall s x, Inv s -> bytes_ok (s_buf s) -> bytes_ok x -> s_off s mod 8 = 0 ->
      if s_off s / 8 + blen x <=? blen (s_buf s)
-     then exists s', add_aligned_bytes_chk s x = Some s' /\ appended s s' (8 * blen x) (bit x) else add_aligned_bytes_chk s x = None) /\
+     then exists s', add_aligned_bytes s x = Some s' /\ appended s s' (8 * blen x) (bit x) else add_aligned_bytes s x = None) /\
   (forall s value bits, Inv s -> bytes_ok (s_buf s) -> 1 <= bits -> s_off s mod 8 = 0 ->
      if s_off s / 8 + (bits + 7) / 8 <=? blen (s_buf s)
-     then exists s', add_aligned_unsigned_chk s value bits = Some s' /\ appended s s' bits (N.testbit (value mod 2 ^ bits))
-     else add_aligned_unsigned_chk s value bits = None) /\
+     then exists s', add_aligned_unsigned s value bits = Some s' /\ appended s s' bits (N.testbit (value mod 2 ^ bits))
+     else add_aligned_unsigned s value bits = None) /\
   (forall s x, Inv s -> bytes_ok (s_buf s) -> s_off s mod 8 = 0 ->
      if s_off s / 8 + (N.of_nat (length x) + 7) / 8 <=? blen (s_buf s)
-     then exists s', add_aligned_array_of_bits_chk s x = Some s' /\ appended s s' (N.of_nat (length x)) (nthb x)
-     else add_aligned_array_of_bits_chk s x = None) /\
+     then exists s', add_aligned_array_of_bits s x = Some s' /\ appended s s' (N.of_nat (length x)) (nthb x)
+     else add_aligned_array_of_bits s x = None) /\
+  (forall s x, Inv s -> bytes_ok (s_buf s) -> x <= 255 -> s_off s mod 8 = 0 ->
+     if s_off s / 8 <? blen (s_buf s)
+     then exists s', add_aligned_u8 s x = Some s' /\ appended s s' 8 (N.testbit x) else add_aligned_u8 s x = None) /\
   (forall s x, Inv s -> bytes_ok (s_buf s) -> s_off s mod 8 = 0 ->
      (if s_off s / 8 + 2 <=? blen (s_buf s)
-      then exists s', add_aligned_u16_chk s x = Some s' /\ appended s s' 16 (N.testbit x) else add_aligned_u16_chk s x = None) /\
+      then exists s', add_aligned_u16 s x = Some s' /\ appended s s' 16 (N.testbit x) else add_aligned_u16 s x = None) /\
      (if s_off s / 8 + 4 <=? blen (s_buf s)
-      then exists s', add_aligned_u32_chk s x = Some s' /\ appended s s' 32 (N.testbit x) else add_aligned_u32_chk s x = None) /\
+      then exists s', add_aligned_u32 s x = Some s' /\ appended s s' 32 (N.testbit x) else add_aligned_u32 s x = None) /\
      (if s_off s / 8 + 8 <=? blen (s_buf s)
-      then exists s', add_aligned_u64_chk s x = Some s' /\ appended s s' 64 (N.testbit x) else add_aligned_u64_chk s x = None)) /\
+      then exists s', add_aligned_u64 s x = Some s' /\ appended s s' 64 (N.testbit x) else add_aligned_u64 s x = None)) /\
+  (forall s x, Inv s -> bytes_ok (s_buf s) ->
+     if s_off s / 8 <? blen (s_buf s)
+     then exists s', add_unaligned_bit s x = Some s' /\ appended s s' 1 (fun _ => x) else add_unaligned_bit s x = None) /\
   (forall s value, Inv s -> bytes_ok (s_buf s) -> bytes_ok value ->
      if (blen value =? 0) || (s_off s / 8 + (blen value + 1) <=? blen (s_buf s))
-     then exists s', add_unaligned_bytes_chk s value = Some s' /\ appended s s' (8 * blen value) (bit value)
-     else add_unaligned_bytes_chk s value = None) /\
+     then exists s', add_unaligned_bytes s value = Some s' /\ appended s s' (8 * blen value) (bit value)
+     else add_unaligned_bytes s value = None) /\
   (forall s value bits, Inv s -> bytes_ok (s_buf s) -> 1 <= bits ->
      if s_off s / 8 + ((bits + 7) / 8 + 1) <=? blen (s_buf s)
-     then exists s', add_unaligned_unsigned_chk s value bits = Some s' /\ appended s s' bits (N.testbit (value mod 2 ^ bits))
-     else add_unaligned_unsigned_chk s value bits = None) /\
-  (forall s x value bits,
-     (s_off s mod 8 = 0 -> s_off s / 8 + blen x <= blen (s_buf s) -> add_aligned_bytes_chk s x = add_aligned_bytes s x) /\
-     (x <> [] -> s_off s / 8 + blen x < blen (s_buf s) -> add_unaligned_bytes_chk s x = add_unaligned_bytes s x) /\
-     (s_off s / 8 + 8 <= blen (s_buf s) -> add_aligned_u64_chk s value = add_aligned_u64 s value) /\
-     (1 <= bits -> s_off s mod 8 = 0 -> s_off s / 8 + (bits + 7) / 8 <= blen (s_buf s) ->
-      add_aligned_unsigned_chk s value bits = add_aligned_unsigned s value bits)).
+     then exists s', add_unaligned_unsigned s value bits = Some s' /\ appended s s' bits (N.testbit (value mod 2 ^ bits))
+     else add_unaligned_unsigned s value bits = None).
 Proof.
-  split; [exact add_aligned_bytes_chk_total|]. split; [exact add_aligned_unsigned_chk_total|].
-  split; [exact add_aligned_array_of_bits_chk_total|]. split; [exact add_aligned_u16_u32_u64_chk_total|].
-  split; [exact add_unaligned_bytes_chk_total|]. split; [exact add_unaligned_unsigned_chk_total|exact chk_is_current_within_capacity].
+  split; [exact add_aligned_bytes_total|]. split; [exact add_aligned_unsigned_total|].
+  split; [exact add_aligned_array_of_bits_total|]. split; [exact add_aligned_u8_total|]. split; [exact add_aligned_u16_u32_u64_total|].
+  split; [exact add_unaligned_bit_total|]. split; [exact add_unaligned_bytes_total|exact add_unaligned_unsigned_total].
 Qed.
 Print Assumptions C14_py_too_small_reported.
+
+(* Part 2: the writers built on those: signed (aligned or not; in-range values), i8..i64, unaligned arrays of bits, f16/f32/f64
+   (under the struct packing law), arrays of standard-width primitives, pad_to_alignment. *)
+Theorem C14_py_too_small_reported_derived :
+  (forall (aligned : bool) s value bits,
+     Inv s -> bytes_ok (s_buf s) -> 2 <= bits -> (- 2 ^ (Z.of_N bits - 1) <= value < 2 ^ (Z.of_N bits - 1))%Z ->
+     (if aligned then s_off s mod 8 = 0 else True) ->
+     if s_off s / 8 + ((bits + 7) / 8 + (if aligned then 0 else 1)) <=? blen (s_buf s)
+     then exists s', (if aligned then add_aligned_signed s value bits else add_unaligned_signed s value bits) = Some s' /\
+                     appended s s' bits (fun k => Z.testbit value (Z.of_N k))
+     else (if aligned then add_aligned_signed s value bits else add_unaligned_signed s value bits) = None) /\
+  (forall w s (x : Z), (w = 8 \/ w = 16 \/ w = 32 \/ w = 64) ->
+     Inv s -> bytes_ok (s_buf s) -> s_off s mod 8 = 0 -> (- 2 ^ (Z.of_N w - 1) <= x < 2 ^ (Z.of_N w - 1))%Z ->
+     if s_off s / 8 + w / 8 <=? blen (s_buf s)
+     then exists s', add_aligned_ixx w s x = Some s' /\ appended s s' w (fun k => Z.testbit x (Z.of_N k))
+     else add_aligned_ixx w s x = None) /\
+  (forall s x, Inv s -> bytes_ok (s_buf s) ->
+     if (N.of_nat (length x) =? 0) || (s_off s / 8 + ((N.of_nat (length x) + 7) / 8 + 1) <=? blen (s_buf s))
+     then exists s', add_unaligned_array_of_bits s x = Some s' /\ appended s s' (N.of_nat (length x)) (nthb x)
+     else add_unaligned_array_of_bits s x = None) /\
+  (forall (F : Type) (float_to_bytes : N -> F -> bytes) (aligned : bool) s size (x : F),
+     float_to_bytes_law float_to_bytes -> (size = 2 \/ size = 4 \/ size = 8) ->
+     Inv s -> bytes_ok (s_buf s) -> (if aligned then s_off s mod 8 = 0 else True) ->
+     if s_off s / 8 + (size + (if aligned then 0 else 1)) <=? blen (s_buf s)
+     then exists s', (if aligned then add_aligned_float F float_to_bytes s size x else add_unaligned_float F float_to_bytes s size x) = Some s' /\
+                     appended s s' (8 * size) (bit (float_to_bytes size x))
+     else (if aligned then add_aligned_float F float_to_bytes s size x else add_unaligned_float F float_to_bytes s size x) = None) /\
+  (forall (aligned : bool) s w xs, Inv s -> bytes_ok (s_buf s) -> (if aligned then s_off s mod 8 = 0 else True) ->
+     let nbytes := N.of_nat w * N.of_nat (length xs) in
+     if (if aligned then false else nbytes =? 0) || (s_off s / 8 + (nbytes + (if aligned then 0 else 1)) <=? blen (s_buf s))
+     then exists s', (if aligned then add_aligned_array_std s w xs else add_unaligned_array_std s w xs) = Some s' /\
+                     appended s s' (8 * nbytes) (bit (le_image w xs))
+     else (if aligned then add_aligned_array_std s w xs else add_unaligned_array_std s w xs) = None) /\
+  (forall s n, Inv s -> bytes_ok (s_buf s) -> 0 < n ->
+     let pad := (n - s_off s mod n) mod n in
+     if (pad =? 0) || ((s_off s + pad + 7) / 8 <=? blen (s_buf s))
+     then pad_to_alignment s n = Some (mkser (s_buf s) (s_off s + pad)) /\ (s_off s + pad) mod n = 0
+     else pad_to_alignment s n = None).
+Proof.
+  split; [exact add_signed_total|]. split; [exact add_aligned_ixx_total|]. split; [exact add_unaligned_array_of_bits_total|].
+  split; [exact @add_float_total|]. split; [exact add_array_std_total|exact pad_to_alignment_total].
+Qed.
+Print Assumptions C14_py_too_small_reported_derived.
